@@ -134,6 +134,29 @@ pub fn run(w: &World, seed: u64, rng: &mut Rng, n: usize, trace: &mut Trace, sum
             drain(w, &mut dec, trace, sum, true);
             trace.emit(json!({"ev":"End","buffered": dec.buffered()}));
         }
+        // ---- one length prefix made smaller than the body (the bytes that follow are already buffered): the frame is
+        //      truncated for the decoder, which must report an error and must not borrow the following bytes
+        for (fi, e) in enc.iter().enumerate() {
+            let blen = e.len() - 4;
+            if blen < 2 {
+                continue;
+            }
+            for cut in [1usize, 2, blen / 2, blen - 1] {
+                if cut == 0 || cut >= blen {
+                    continue;
+                }
+                let off: usize = enc[..fi].iter().map(|e| e.len()).sum();
+                let mut s = stream.clone();
+                s[off..off + 4].copy_from_slice(&((blen - cut) as u32).to_be_bytes());
+                trace.emit(json!({"ev":"Reset","run":i,"seed":seed,"mode":"shortlen","frames":meta,"total":total,"bad":fi + 1,"ops":[]}));
+                sum.add("histories", 1);
+                let mut dec = StreamDecoder::default();
+                trace.emit(json!({"ev":"Feed","n": total}));
+                dec.feed(&s);
+                drain(w, &mut dec, trace, sum, false);
+                trace.emit(json!({"ev":"End","buffered": dec.buffered()}));
+            }
+        }
         // ---- single-byte corruption of a frame body (length prefix intact)
         for _ in 0..40 {
             let fi = rng.below(enc.len());
